@@ -627,7 +627,11 @@ def judge(what, case, obs, mod):
         if op[0] == "readFresh" and "fresh" in o and o["method"] == "derivative":
             f = o["fresh"]
             if not (abs(o["v"] - f["v"]) <= 1e-9 * (abs(o["v"]) + abs(f["v"])) + 1e-300 and
-                    abs(o["e"] - f["e"]) <= 1e-9 * (abs(o["e"]) + abs(f["e"])) + 1e-300):
+                    abs(o["e"] - f["e"]) <= 1e-9 * (abs(o["e"]) + abs(f["e"])) + 1e-300 + (
+                        # a correlation of exactly +-1: a variance that cancels exactly is reproduced
+                        # only up to the rounding of its terms (order of summation follows object ids)
+                        1e-9 * abs(f["v"]) if any(abs(unbits(r_[2])) == 1.0
+                                                  for r_ in (case.get("rho") or [])) else 0.0)):
                 failures.append({"signature": "{}:{}".format(what, "stale-after-recalculate" if what == "c05"
                                                               else "derivative-read-not-afresh"),
                                  "oracle": "independent", "kind": "violation",
